@@ -69,7 +69,7 @@ CHECKS["C18"] = {
     "design_ref": "DESIGN.md section 5, C18",
     "technique": "Kani harnesses, one per name and clause over the finite domain of 36 names, plus a symbolic-string harness for non-members",
     "text": "All 36 names: Display prints the name, FromStr and clap's ValueEnum parse it back to the same variant, clap offers it under exactly that string (and offers 36 values), and build_decoder returns the concrete type computed from the name (HL prefix -> horizontal_layered::Decoder, otherwise flooding::Decoder, over the arithmetic type of that name). Every ASCII string of up to 48 bytes that FromStr accepts equals the printed name of the result.",
-    "note": "Trusted: Kani/CBMC; the concrete type is observed through the guarded hook verif_type_name; 'behaves exactly like the generic decoder' is reduced to type identity (same monomorphised code); new() determinism assumed. clap's parser on non-member strings is not covered.",
+    "note": "Quick tier: Display + FromStr and the clap value name for all 36 names, non-member strings, and the concrete decoder type for the 12 HL names plus one flooding name per arithmetic family (18 names); the thorough tier adds clap's own parser on every name and the type harness for all 36 names (the full set took 10-13 min and was stopped by the 900 s cap of vp check on a busy machine). Trusted: Kani/CBMC; the concrete type is observed through the guarded hook verif_type_name; 'behaves exactly like the generic decoder' is reduced to type identity (same monomorphised code); new() determinism assumed. clap's parser on non-member strings is not covered.",
 }
 CHECKS["C15"] = {
     "engine": "kani",
